@@ -43,7 +43,7 @@
 (*                    was received; the finished operation's deferred      *)
 (*                    delete(active, id) removes the NEW registration, so  *)
 (*                    stop(id) / close() do not cancel the new operation   *)
-(*   AllowLateStart   (OPEN, introduced by /repo 8c78f49) subscribe()      *)
+(*   AllowLateStart   (8c78f49 .. repaired by 46bea9c) subscribe()          *)
 (*                    closes the connection on a duplicate id but the run  *)
 (*                    loop goes on: a start that is already buffered       *)
 (*                    behind it is registered and executed AFTER close()   *)
